@@ -58,6 +58,12 @@ type graceTunnel struct {
 	ChunkMax     int `json:"chunk_max"`
 	Early        int `json:"early"`    // bytes of the client's payload in the same write as the request head
 	Coalesce     int `json:"coalesce"` // bytes of the far side's payload in the same write as its reply
+	// Quiet (longevity.go): windows [from, to) in ms after the tunnel is up in which NEITHER endpoint writes
+	Quiet [][2]int `json:"quiet_windows_ms,omitempty"`
+	// SecondOnFin (plan "finish"): the second endpoint goes on until the first one's CloseWrite has returned
+	// (known in-process) instead of until it has read that end-of-stream: a far leg the proxy cannot
+	// half-close is only shown it when the tunnel is closed
+	SecondOnFin bool `json:"second_goes_on_until_first_has_half_closed,omitempty"`
 }
 
 // graceCase is one scenario of the grace period in one proxy configuration.
@@ -70,6 +76,8 @@ type graceCase struct {
 	SlackMs  int           `json:"slack_ms"`  // generous: the forced close is seen at most this long after its deadline
 	PromptMs int           `json:"prompt_ms"` // generous: sockets of a tunnel both directions of which finished are closed within
 	Tunnels  []graceTunnel `json:"tunnels"`
+	// Limits (longevity.go): the timeouts the configuration's proxy, transport and dialers run with
+	Limits *limitsMs `json:"limits_ms,omitempty"`
 }
 
 const graceMarginUs = 150_000 // a write completed this long before the deadline must have been relayed
@@ -430,6 +438,19 @@ func (e *env) runGraceTunnel(gc *graceCase, gt graceTunnel, seed uint64, clock f
 				return true
 			default:
 			}
+			if q := quietFor(gt.Quiet, time.Since(t0)); q > 0 {
+				if !until.IsZero() {
+					if d := time.Until(until); d < q {
+						q = d
+					}
+				}
+				select {
+				case <-stop:
+					return true
+				case <-time.After(q):
+				}
+				continue
+			}
 			n := s.rng.Range(1, gt.ChunkMax)
 			if s.off+n > len(s.data) {
 				return true // the payload is used up (never in practice)
@@ -484,9 +505,11 @@ func (e *env) runGraceTunnel(gc *graceCase, gt graceTunnel, seed uint64, clock f
 	}
 	finAt := t0.Add(time.Duration(gt.FinMs) * time.Millisecond)
 	never := make(chan struct{})
+	firstFin := make(chan struct{}) // the first side's CloseWrite has returned (or it gave up)
 	wg.Add(2)
 	go func() { // the side that half-closes first
 		defer wg.Done()
+		defer close(firstFin)
 		if trickle(first, finAt, never) {
 			halfClose(first)
 		}
@@ -504,7 +527,11 @@ func (e *env) runGraceTunnel(gc *graceCase, gt graceTunnel, seed uint64, clock f
 			trickle(second, until, never)
 		default:
 			// keeps writing until it has seen the first side's end-of-stream, and SecondMs longer
-			if !trickle(second, time.Time{}, secondSeen) {
+			goOn := (<-chan struct{})(secondSeen)
+			if gt.SecondOnFin {
+				goOn = firstFin
+			}
+			if !trickle(second, time.Time{}, goOn) {
 				return
 			}
 			if !trickle(second, time.Now().Add(time.Duration(gt.SecondMs)*time.Millisecond), never) {
@@ -543,6 +570,16 @@ func (e *env) runGraceTunnel(gc *graceCase, gt graceTunnel, seed uint64, clock f
 	defer mu.Unlock()
 	o.up.sent, o.down.sent = upData[:client.off], downData[:target.off]
 	return o
+}
+
+// quietFor: how much longer the quiet window lasts that `since` (time since the tunnel was up) falls into.
+func quietFor(windows [][2]int, since time.Duration) time.Duration {
+	for _, w := range windows {
+		if from, to := msDur(w[0]), msDur(w[1]); since >= from && since < to {
+			return to - since
+		}
+	}
+	return 0
 }
 
 // ---- judging ----
@@ -609,7 +646,11 @@ func judgeTunnel(gc *graceCase, o *gTunnelObs) (fs []gFinding) {
 	if F.finDoneAt < 0 {
 		if F.finAt < 0 && F.writeErr != "" {
 			// its writes failed before it got to half-close: the tunnel was cut while both directions were alive
-			add(true, "cut", "while no direction has finished nothing is closed: the grace timer is not started with the tunnel ("+F.name+")",
+			clause := "while no direction has finished nothing is closed: the grace timer is not started with the tunnel (" + F.name + ")"
+			if gc.Limits != nil {
+				clause = fmt.Sprintf("an established tunnel is not subject to the limits of the request or the dial that opened it (all of them %d ms or less) (%s)", gc.Limits.largest(), F.name)
+			}
+			add(true, "cut", clause,
 				fmt.Sprintf("the tunnel was up at %d ms, period %d ms; no endpoint had half-closed (the first was to do so %d ms after the tunnel was up) when a write of %s failed with %q at %d ms; the other direction: %s",
 					ms(o.t0), gc.PeriodMs, o.Plan.FinMs, F.name, F.writeErr, ms(F.writeErrAt), D.summary()))
 		} else {
@@ -944,7 +985,15 @@ func modelVerdict(ctx *core.Ctx, gc *graceCase, o *gTunnelObs) (verdict, detail 
 	}
 	timing := core.Itoa(gc.PeriodMs) + "," + strconv.FormatInt(slack, 10)
 	steps, tags := timedHistory(gc, o, c, geAt, endAt)
-	ans := ctx.Model.MustAsk("C03", "trun", c.wire(), timing, core.JoinList2(steps))
+	var ans string
+	if gc.Limits != nil {
+		// the machine with the configuration's request / dial limits (policy `cleared` = the code): ticks are
+		// milliseconds since the case began, the request was read and the far end dialled at the instant the
+		// tunnel was up
+		ans = ctx.Model.MustAsk("C03", "ltrun", c.wire(), timing, gc.Limits.wire(), "cleared", core.JoinList2(steps))
+	} else {
+		ans = ctx.Model.MustAsk("C03", "trun", c.wire(), timing, core.JoinList2(steps))
+	}
 	if strings.HasPrefix(ans, "stuck ") {
 		i, _ := strconv.Atoi(strings.TrimPrefix(ans, "stuck "))
 		tag, st := "?", "?"
@@ -1278,7 +1327,26 @@ func genGraceCase(r *core.Rand, mode, variant string, periodMs int, long bool) *
 	default:
 		core.Fatalf("C03: unknown grace variant %q", variant)
 	}
+	for i := range gc.Tunnels {
+		adaptToLeg(mode, &gc.Tunnels[i])
+	}
 	return gc
+}
+
+// adaptToLeg: what the far leg of a ConnectFunc configuration cannot do (legs.go). Behind net.Pipe the far
+// end finishes by closing the pipe, so it never finishes first; a far end whose leg the proxy cannot
+// half-close is not shown the client's end-of-stream while the tunnel lives, so in plan "finish" it goes on
+// until it KNOWS (in-process) that the client has half-closed, and a little longer.
+func adaptToLeg(mode string, gt *graceTunnel) {
+	if !farEndCanHalfClose(mode) {
+		gt.First = "client"
+	}
+	if !legCanHalfClose(mode) && gt.Plan == "finish" && gt.First == "client" {
+		gt.SecondOnFin = true
+		if gt.SecondMs < 60 {
+			gt.SecondMs += 60
+		}
+	}
 }
 
 // setGracePeriod sets the proxy's grace period through the hook and returns the function restoring it.
